@@ -297,6 +297,18 @@ def generate(tier, seed):
 
     emit_strings("char", [97, 98, 200], [97, 200, 0], 5 if thorough else 4, 4 if thorough else 3)
     emit_strings("wchar", [97, 0x7FFFFFF0, 0x80000010], [97, 0x80000010, 0], 4 if thorough else 3, 3)
+    # wide units that differ only above the low byte (a 256-entry table indexed by the low byte, or a narrowing to
+    # unsigned char, confuses them): every pair of strings up to length 2 for the set / substring searches, and the
+    # single-unit searches for each of them
+    WL = [0x61, 0x161, 0x10061, 0x100]
+    for s_ in strings(WL, 2):
+        for t_ in strings(WL, 2):
+            for op in ("strspn", "strcspn", "strpbrk", "strstr"):
+                add("%s s=%s off=0 t=%s toff=0 ct=wchar" % (op, fmt_list(s_ + [0]), fmt_list(t_ + [0])), op + "/w/lowbyte")
+        for c_ in WL:
+            add("strchr s=%s off=0 ch=%d ct=wchar" % (fmt_list(s_ + [0]), c_), "strchr/w/lowbyte")
+            add("strrchr s=%s off=0 ch=%d ct=wchar" % (fmt_list(s_ + [0]), c_), "strrchr/w/lowbyte")
+            add("memchr s=%s off=0 ch=%d n=%d ct=wchar" % (fmt_list(s_ + [0]), c_, len(s_) + 1), "memchr/w/lowbyte")
 
     # ---------------------------------------------------------------- div / labs / llabs
     def bnd(bits):
